@@ -12,10 +12,12 @@ sys.path.insert(0, ROOT)
 ALL = [json.loads(l)["id"] for l in open(os.path.join(ROOT, "properties.jsonl"))]
 PENDING = {}
 
+# only properties listed in tools/integrated.txt are claimed (others may be under construction)
+INTEGRATED = set(open(os.path.join(ROOT, "tools", "integrated.txt")).read().split())
 checks, na = [], []
 for pid in ALL:
     path = os.path.join(ROOT, "harness", "props", pid.lower() + ".py")
-    if not os.path.exists(path):
+    if not os.path.exists(path) or pid not in INTEGRATED:
         na.append({"property_id": pid, "reason": PENDING.get(pid, "check not built yet: the TLA+ module and conformance harness for this property are planned in DESIGN.md section 7 but not committed; nothing is claimed")})
         continue
     mod = importlib.import_module(f"harness.props.{pid.lower()}")
